@@ -103,6 +103,52 @@ def flat(A):
     return [x for r in A for x in r]
 
 
+# ------------------------------------------------------------------ representation axis
+
+def represent(A, rep, base=float):
+    """the same matrix values handed to bct in another in-memory representation"""
+    M = np.array(A, dtype=base)
+    if rep in (None, 'float64'):
+        return M
+    if rep == 'int64':
+        return M.astype(np.int64)
+    if rep == 'bool':
+        return M != 0
+    if rep == 'float32':
+        return M.astype(np.float32)
+    if rep == 'fortran':
+        return np.asfortranarray(M)
+    if rep == 'tview':                 # a transposed view of the transposed copy: same values, non-contiguous strides
+        return M.T.copy().T
+    if rep == 'strided':               # every second row/column of a larger buffer
+        B = np.zeros((2 * len(A), 2 * len(A)), dtype=base)
+        B[::2, ::2] = M
+        return B[::2, ::2]
+    raise ValueError(rep)
+
+
+def float_subset_cores(Af, ss):
+    """decimal weights: the documented semantics evaluated in floats exactly as a fresh re-sum does it —
+    a set S qualifies for s iff min over v in S of W[np.ix_(S,S)].sum(axis=0)[v] >= s; returns per s the union of the
+    qualifying sets (None if the union does not qualify), plus the sorted list of all attained float strengths"""
+    n = len(Af)
+    mins = [None] * (1 << n)
+    attained = set()
+    for S in range(1, 1 << n):
+        mem = bits(S, n)
+        st_ = Af[np.ix_(mem, mem)].sum(axis=0)
+        mins[S] = float(st_.min())
+        attained.update(float(x) for x in st_)
+    out = {}
+    for s_ in ss:
+        U = 0
+        for S in range(1, 1 << n):
+            if mins[S] >= s_:
+                U |= S
+        out[s_] = None if (U and mins[U] < s_) else U
+    return out, sorted(attained)
+
+
 # ------------------------------------------------------------------ one job = one matrix, all its k / s
 
 def run_job(job):
@@ -123,7 +169,7 @@ def run_job(job):
     if kind in ('bu', 'bd'):
         func = 'kcore_' + kind
         f = getattr(bct, func)
-        Af = np.array(A, dtype=float)
+        Af = represent(A, job.get('rep'))
         cores = None if malformed else oracle_cores(kind, A, ks)
         prev = None
         for k in ks:
@@ -204,9 +250,54 @@ def run_job(job):
                     out['nontrivial'].append(digest([func, A, k]))
         return out
 
+    if kind == 'wu-dec':
+        # decimal (non-dyadic) weights k/10: float effects are part of the observable behaviour, so this family is judged by the
+        # float subset-enumeration oracle only (the exact-rational Lean model cannot see one-ulp effects)
+        func = 'score_wu'
+        Af = np.array(A, dtype=float)
+        _, attained = float_subset_cores(Af, [])
+        ss = set()
+        for v in attained:
+            if v > 0:
+                ss.update((v, float(np.nextafter(v, np.inf)), float(np.nextafter(v, -np.inf))))
+        ss = sorted(ss)
+        if job.get('max_s') and len(ss) > job['max_s']:
+            rs_ = np.random.RandomState(job['max_s'] + len(ss))
+            ss = [ss[i] for i in sorted(rs_.choice(len(ss), size=job['max_s'], replace=False).tolist())]
+        cores, _ = float_subset_cores(Af, ss)
+        full = Af.sum(axis=0)
+        for s_ in ss:
+            r = call(bct.score_wu, Af.copy(), s_, t=T_CALL)
+            out['evals'] += 1
+            st(r[0])
+            if r[0] == 'timeout':
+                out['timeouts'].append('%s s=%r' % (func, s_)); break
+            if r[0] == 'exc':
+                viol(func, 'raises', r[1], None, s=repr(s_)); continue
+            M, sn = np.asarray(r[1][0]), int(r[1][1])
+            C = cores[s_]
+            if C is None:
+                viol(func, 'oracle-union-qualifies', None, None, s=repr(s_)); continue
+            sup = 0
+            for v in range(n):
+                if M[v].any() or M[:, v].any():
+                    sup |= 1 << v
+            want = np.array(restrict(Af.tolist(), C))
+            if sup != C:
+                viol(func, 'core-set', bits(sup, n), bits(C, n), s=repr(s_), weights='decimal')
+            if not np.array_equal(M, want):
+                viol(func, 'restricted-matrix', M.tolist(), want.tolist(), s=repr(s_), weights='decimal')
+            if sn != bin(C).count('1'):
+                viol(func, 'size', sn, bin(C).count('1'), s=repr(s_), weights='decimal')
+            mem = bits(C, n)
+            if mem and C != sum(1 << v for v in range(n) if full[v] > 0) and s_ in set(float(x) for x in Af[np.ix_(mem, mem)].sum(axis=0)):
+                out['nontrivial'].append(digest(['score_wu-dec-tie', A, s_]))     # earlier peeling and an exact tie inside the core
+                out['dec_ties'] = out.get('dec_ties', 0) + 1
+        return out
+
     if kind == 'wu':
         func = 'score_wu'
-        Af = np.array([[float(Fr(x)) for x in row] for row in A])
+        Af = represent([[float(Fr(x)) for x in row] for row in A], job.get('rep'))
         Aq = [[Fr(x) for x in row] for row in A]
         ss = [Fr(s) for s in ks]
         cores = oracle_cores('wu', Aq, ss)
@@ -251,7 +342,7 @@ def run_job(job):
     # k-coreness centrality
     base = kind[2:]                       # 'bu' / 'bd'
     func = 'kcoreness_centrality_' + base
-    Af = np.array(A, dtype=float)
+    Af = represent(A, job.get('rep'))
     r = call(getattr(bct, func), Af.copy(), t=T_CALL * 2)
     out['evals'] += 1
     st(r[0])
@@ -397,6 +488,12 @@ def gen_jobs(rs, tier):
         if len(grid) > 24:
             grid = grid[:2] + [grid[i] for i in sorted((2 + rs.choice(len(grid) - 2, size=22, replace=False)).tolist())]
         jobs.append({'kind': 'wu', 'A': [[str(x) for x in r] for r in A], 'ks': [str(s) for s in grid]})
+    # --- score_wu, decimal weights k/10 (floats): Python oracle only, s on the float strengths of every node subset and their neighbours
+    dec = [k / 10 for k in range(1, 10)]
+    for _ in range(1500 if th else 110):
+        n = int(rs.randint(4, 7))
+        A = rand_und(rs, n, rs.choice([.5, .7, .9]), dec)
+        jobs.append({'kind': 'wu-dec', 'A': A, 'ks': [], 'max_s': None if n <= 5 else 150})
     # --- k-coreness
     for n in range(1, 6):
         N = 1 << (n * (n - 1) // 2)
@@ -412,6 +509,20 @@ def gen_jobs(rs, tier):
     for _ in range(1500 if th else 60):
         n = int(rs.randint(5, 9))
         jobs.append({'kind': 'c-bd', 'A': rand_dir(rs, n, rs.choice([.15, .3, .5])), 'ks': []})
+    # --- representation axis: the same values as int64 / bool / float32 matrices, Fortran order, transposed and strided views
+    reps_bin = ['int64', 'bool', 'float32', 'fortran', 'tview', 'strided']
+    reps_wu = ['fortran', 'tview', 'strided', 'float32']
+    extra = []
+    for j in jobs:
+        if j.get('malformed') or j['kind'] == 'wu-dec' or rs.rand() > (.25 if th else .12):
+            continue
+        if j['kind'] == 'wu':
+            rep = reps_wu[rs.randint(len(reps_wu))]
+        else:
+            rep = reps_bin[rs.randint(len(reps_bin))]
+        e = dict(j); e['rep'] = rep
+        extra.append(e)
+    jobs += extra
     # --- malformed stream (no claim; correspondence only): asymmetric / weighted / self-loops into the undirected routines
     for _ in range(60 if th else 20):
         n = int(rs.randint(2, 7))
@@ -427,18 +538,21 @@ def main():
     ck.cov['rule'] = ('jobs = one matrix x all its k (s): every undirected graph n<=5 x k=0..n and every directed graph n<=4 x k=0..2n-1 '
                       '(thorough; n=5 / n=4 sliced in quick), random n=6 (subset oracle) and n=7..12 (independent sequential peeling); '
                       'score_wu on every n<=4 graph with weights {1/2,1,3/2} and random n=5..8 with weights k/4, s on a grid containing every '
-                      'attainable internal strength and its +-1/8 neighbours; kcoreness on the same families; non-trivial = distinct '
+                      'attainable internal strength and its +-1/8 neighbours; score_wu with decimal weights k/10 (floats, n=4..6) and s = every float strength '
+                      'W[ix_(S,S)].sum(0)[v] of every node subset and its two float neighbours (Python float oracle only); a fraction of all jobs again as '
+                      'int64 / bool / float32 matrices, Fortran order, transposed and strided views; kcoreness on the same families; non-trivial = distinct '
                       '(routine, matrix, k) in which at least one peeling round removed a node (kcore), the s-core is a proper subset '
                       '(score), some node has coreness >= 2 (kcoreness)')
     ck.assumptions += ['k >= 1 / s > 0 for the maximality predicates; for k = 0 / s <= 0 the judged statement is: input returned unchanged, nothing peeled, kn = number of non-isolated nodes (theorems kcore_bu_zero, kcore_bd_zero, score_wu_nonpos)',
-                       'undirected routines are judged on symmetric input; weights of score_wu are non-negative dyadic rationals so that float sums are exact',
+                       'undirected routines are judged on symmetric input; for the correspondence with the exact-rational Lean model the weights of score_wu are non-negative dyadic rationals (float sums exact)',
+                       'decimal-weight score_wu cases are judged against the documented semantics evaluated in floats (fresh re-sum of the submatrix, C order, n <= 6) and are NOT compared with the Lean model, which cannot see one-ulp effects',
                        'kn[0] of kcoreness_centrality_* (code convention: number of non-isolated nodes) is compared with the model but not judged']
     ok = ck.lean_gate(['BctVerif.Props.C15'], extra_modules=['BctVerif.Model.Core'])
     if ck.tier == 'thorough' and ok:
         ck.leanchecker(['BctVerif.Props.C15', 'BctVerif.Model.Core'])
     if ck.replay:
         c = json.load(open(ck.replay))['case']['case']
-        jobs = [{'kind': c['kind'], 'A': c['A'], 'ks': c['ks'], 'malformed': c.get('malformed', False)}]
+        jobs = [{'kind': c['kind'], 'A': c['A'], 'ks': c['ks'], 'malformed': c.get('malformed', False), 'rep': c.get('rep'), 'max_s': c.get('max_s')}]
     else:
         jobs = gen_jobs(ck.rs, ck.tier)
     results = pmap(run_job, jobs)
@@ -446,6 +560,10 @@ def main():
     ntimeouts = 0
     for job, r in zip(jobs, results):
         ck.count('jobs:' + job['kind'] + (':malformed' if job.get('malformed') else ''))
+        if job.get('rep'):
+            ck.count('rep:' + job['rep'])
+        if r.get('dec_ties'):
+            ck.count('decimal_exact_ties_after_peeling', r['dec_ties'])
         ck.count('n=%d' % r['n'])
         for s, c in r['status'].items():
             ck.count('status:' + s, c)
